@@ -49,3 +49,12 @@ CLAIMS['C17'] = dict(
          'thread_pool enqueues, notifies unconditionally, runs outside the lock inside catch(...), cancel is true iff erased; cross-thread entry points wake a polling loop; a cancel is dropped only when '
          'nothing is queued and nothing registered.',
     note='Trusted: guarded-by tables, std::recursive_mutex / condition_variable semantics, reactor back-ends and the self-pipe. Not decided: liveness/fairness, reactor readiness semantics. io_service::reset() is exempt (documented not thread safe).')
+
+CLAIMS['C19'] = dict(
+    category='other',
+    technique='static analysis: linear guard-implication (forward constraint propagation + Fourier-Motzkin) and per-path operation-count agreement on the CFG',
+    text='Proves for archive::next_chunk_size / read_chunk / read_chunk_as_string (callee inlined, every path) that each memcpy and std::string(p,n) reads inside [0, buffer_.size()): the obligations '
+         'ptr_+4 <= size and ptr_+4+len <= size follow from the guards in force (this is the rule that found the off-by-header defect, now fixed). Structural: read_chunk copies only after stored length == requested length, '
+         'cursors advance, the writer emits a 4-byte length then the payload; for all 45 archive_traits specialisations (macro-generated ones included, instantiated by an analysis-only witness unit) save and load perform '
+         'the same number of primitive chunk operations on every path (helper calls flattened), so a loader cannot skip or double-read a chunk that the saver wrote.',
+    note='Assumes no size_t wrap of (32-bit length + offset) on the 64-bit target. Not decided: equality of arbitrary object graphs after a round trip, user-defined serializable classes.')
